@@ -101,7 +101,7 @@ class Session:
         def tick():
             if self.n >= self.max_ticks:
                 raise TickLimit()
-            if cpu.halted:
+            if cpu.halted or cpu.pc >= len(self.module.code):
                 self.resumed = True
             self.n += 1
             orig_tick()
